@@ -332,6 +332,11 @@ def enum_ties(tier):
             for sub in itertools.combinations(idx, size):
                 for rename in (None, "tied"):
                     cases.append({"k": k, "first": list(sub), "second": None, "rename": rename, "vals": [0.41, 0.47, 0.52, 0.55, 0.58, 0.44], "reverse": False})
+                if k <= 4:
+                    # the same parameter named twice in the list; a new name that another (untied) parameter already carries
+                    cases.append({"k": k, "first": list(sub), "second": None, "rename": None, "vals": [0.41, 0.47, 0.52, 0.55, 0.58, 0.44], "reverse": False, "repeat": True})
+                    for rename in ("alpha", "n", "0:center.0"):
+                        cases.append({"k": k, "first": list(sub), "second": None, "rename": rename, "vals": [0.41, 0.47, 0.52, 0.55, 0.58, 0.44], "reverse": False})
         # two disjoint subsets in both call orders
         for sub in itertools.combinations(idx, 2):
             rest = [i for i in idx if i not in sub]
@@ -382,6 +387,25 @@ def run_ties(case):
             nm = next((x for x in cur_names if x in ("%d:r" % rep, "tied")), None)
             tie_names.append("%d:r" % rep)
         before = list(model._parameter_names)
+        if case.get("repeat"):
+            tie_names = tie_names + [tie_names[0]]
+            labels.append("repeated_entry")
+        if case["rename"] in before and case["rename"] not in tie_names:
+            # the new name belongs to another parameter: refused (ValueError, model unchanged) or made unique - never two
+            # parameters under one name
+            labels.append("new_name_taken")
+            snap = (list(model._parameter_names), [id(p) for p in model._parameters], repr(model._maps))
+            try:
+                model.add_tie(tie_names, new_name=case["rename"])
+            except ValueError:
+                if (list(model._parameter_names), [id(p) for p in model._parameters], repr(model._maps)) != snap:
+                    return Outcome(failure("tie_bad_modified_model", "rejected add_tie(new_name=%r) modified the model" % case["rename"]), True, labels)
+                return Outcome(None, True, labels)
+            after = list(model._parameter_names)
+            if len(set(after)) != len(after) or len(model.parameters) != len(model._parameters):
+                return Outcome(failure("tie_duplicate_name", "add_tie(%r, new_name=%r) leaves the names %r: model.parameters has %d entries for %d parameters"
+                                       % (tie_names, case["rename"], after, len(model.parameters), len(model._parameters)), new_name=case["rename"]), True, labels)
+            return Outcome(None, True, labels)
         model.add_tie(tie_names, new_name=case["rename"])
         after = list(model._parameter_names)
         keep = min(g)
@@ -511,6 +535,114 @@ def run_rebuild(case):
     return Outcome(None, kind in ("spheres", "rigid", "scatterers_nested", "layered") or True, labels)
 
 
+# ------------------------------------------------------------------------------------------ many parameters
+def strat_many(tier):
+    place = st.sampled_from(["own", "own", "own", "fixed", "shared"])
+    sph = st.fixed_dictionaries({"n": place, "r": place, "c": st.lists(place, min_size=3, max_size=3)})
+    return st.fixed_dictionaries({
+        "spheres": st.lists(sph, min_size=2, max_size=5), "alpha": st.sampled_from(["own", "fixed"]),
+        "medium_index": st.sampled_from(["own", "fixed"]), "noise_sd": st.sampled_from(["own", "fixed"]),
+        "lens_angle": st.sampled_from(["mie", "own", "fixed"]), "model": st.sampled_from(["alpha", "exact"]),
+        "vals": st.lists(gen.rounded(0.35, 1.9, 4), min_size=40, max_size=40, unique=True),
+        "names": st.sampled_from([False, False, True]),
+    })
+
+
+def run_many(case):
+    """every prior-valued place has its own prior object (or one shared per kind): models with up to ~30 parameters."""
+    from holopy.core import prior
+    from holopy.scattering import Sphere, Spheres, Mie, MieLens
+    from holopy.inference import AlphaModel, ExactModel
+    counter = [0]
+    shared = {}
+    sites = []        # (site path, prior object or None, fixed value)
+
+    def mk(kind, how, fixed):
+        if how == "fixed":
+            return fixed
+        if how == "shared":
+            if kind not in shared:
+                counter[0] += 1
+                shared[kind] = prior.Uniform(0.2 + 0.001 * counter[0], 2.2 + 0.001 * counter[0])
+            return shared[kind]
+        counter[0] += 1
+        lo = 0.2 + 0.001 * counter[0]
+        nm = "q%d" % counter[0] if case["names"] and counter[0] % 3 == 0 else None
+        return prior.Uniform(lo, lo + 2.0, name=nm) if counter[0] % 2 else prior.Gaussian(lo + 1.0, 0.25, name=nm)
+    spheres = []
+    for i, sp in enumerate(case["spheres"]):
+        n = mk("n", sp["n"], 1.5); r = mk("r", sp["r"], 0.5)
+        c = [mk("c%d" % j, h, 1.0 + i + j) for j, h in enumerate(sp["c"])]
+        spheres.append(Sphere(n=n, r=r, center=c))
+        sites += [("%d:n" % i, n), ("%d:r" % i, r)] + [("%d:center.%d" % (i, j), c[j]) for j in range(3)]
+    scat = Spheres(spheres, warn=False)
+    la = None if case["lens_angle"] == "mie" else mk("la", case["lens_angle"], 0.8)
+    theory = Mie() if la is None else MieLens(lens_angle=la)
+    mi = mk("mi", case["medium_index"], 1.33); ns = mk("ns", case["noise_sd"], 0.1)
+    kw = dict(theory=theory, medium_index=mi, illum_wavelen=0.66, illum_polarization=(1, 0), noise_sd=ns)
+    al = mk("al", case["alpha"], 0.8)
+    model = AlphaModel(scat, alpha=al, **kw) if case["model"] == "alpha" else ExactModel(scat, **kw)
+    pars = list(model._parameters)
+    names = list(model._parameter_names)
+    distinct = []
+    for _, v in sites + [("lens_angle", la), ("medium_index", mi), ("noise_sd", ns)] + ([("alpha", al)] if case["model"] == "alpha" else []):
+        if isinstance(v, prior.Prior) and not any(v is d for d in distinct):
+            distinct.append(v)
+    labels = [type(model).__name__, "parameters_%02d" % (10 * (len(distinct) // 10)), "spheres_%d" % len(spheres)]
+    if len(pars) != len(distinct):
+        return Outcome(failure("parameter_count", "%d parameters for %d distinct priors" % (len(pars), len(distinct))), True, labels)
+    if len(set(names)) != len(names):
+        return Outcome(failure("names_not_unique", "parameter names %r" % names), True, labels)
+    # a different value for every parameter; the scatterer priors were copied, so parameters are matched to the
+    # template's priors by value (all priors differ in their bounds)
+    vals = case["vals"][:len(pars)]
+    by_prior = []
+    for d in distinct:
+        idx = [i for i, p_ in enumerate(pars) if p_.renamed(None) == d.renamed(None)]
+        if len(idx) != 1:
+            return Outcome(failure("parameter_identity", "prior %r appears %d times among the parameters" % (d, len(idx))), True, labels)
+        by_prior.append(idx[0])
+
+    def want(v):
+        if not isinstance(v, prior.Prior):
+            return v
+        k = next(i for i, d in enumerate(distinct) if d is v)
+        return vals[by_prior[k]]
+    for form in ("list", "dict"):
+        arg = vals if form == "list" else {nm: v for nm, v in zip(names, vals)}
+        s2 = model.scatterer_from_parameters(arg)
+        for i, sph in enumerate(s2.scatterers):
+            got = {"%d:n" % i: sph.n, "%d:r" % i: sph.r}
+            got.update({"%d:center.%d" % (i, j): sph.center[j] for j in range(3)})
+            for path, v in sites:
+                if path in got and not close(got[path], want(v)):
+                    return Outcome(failure("value_placement", "%s = %r, expected %r (parameter values as %s; %d parameters)" % (path, got[path], want(v), form, len(pars)),
+                                           slot=path.split(":")[-1], kind="scatterer", many=True), True, labels)
+        th = model.theory_from_parameters(arg)
+        if la is not None and not close(th.lens_angle, want(la)):
+            return Outcome(failure("value_placement", "lens_angle = %r, expected %r" % (th.lens_angle, want(la)), slot="lens_angle", kind="theory", many=True), True, labels)
+        opt = model._find_optics(arg if form == "list" else [arg[nm] for nm in names], None)
+        if not close(opt["medium_index"], want(mi)):
+            return Outcome(failure("value_placement", "medium_index = %r, expected %r" % (opt["medium_index"], want(mi)), slot="medium_index", kind="optics", many=True), True, labels)
+        nz = model._find_noise(arg if form == "list" else [arg[nm] for nm in names], None)
+        if not close(nz, want(ns)):
+            return Outcome(failure("value_placement", "noise_sd = %r, expected %r" % (nz, want(ns)), slot="noise", kind="optics", many=True), True, labels)
+        if case["model"] == "alpha":
+            from holopy.core.mapping import read_map
+            got = read_map(model._maps["model"], arg if form == "list" else [arg[nm] for nm in names])["alpha"]
+            if not close(got, want(al)):
+                return Outcome(failure("value_placement", "alpha = %r, expected %r" % (got, want(al)), slot="alpha", kind="model", many=True), True, labels)
+    # initial guess
+    g = model.initial_guess_scatterer
+    for i, sph in enumerate(g.scatterers):
+        for path, v in sites:
+            if path == "%d:r" % i and isinstance(v, prior.Prior) and not close(sph.r, v.guess):
+                return Outcome(failure("initial_guess", "%s guess %r, prior guess %r" % (path, sph.r, v.guess), many=True), True, labels)
+            if path == "%d:n" % i and isinstance(v, prior.Prior) and not close(sph.n, v.guess):
+                return Outcome(failure("initial_guess", "%s guess %r, prior guess %r" % (path, sph.n, v.guess), many=True), True, labels)
+    return Outcome(None, len(pars) > 10, labels)
+
+
 SUBCHECKS = [
     Sub("value_to_place_map", strat_map, run_map, 20000, 300000,
         "scatterer template (Sphere, 2-layer Sphere, Spheres of 1-4, RigidCluster) whose n/r/center/rotation/translation "
@@ -519,6 +651,12 @@ SUBCHECKS = [
         "MieLens(lens_angle) / AberratedMieLens([...]); alpha and optics as numbers, priors or per-channel dicts. Count = "
         "distinct priors, unique names, named priors keep their name, values placed per template, dict == list, initial "
         "guess, validate_scatterer; non-trivial = >=2 priors with sharing, a name collision or a transform",
+        tolerances={"rel": 1e-12}),
+    Sub("many_parameters", strat_many, run_many, 3000, 40000,
+        "2-5 spheres whose index, radius and centre components each carry their own prior object (or a fixed number, or one "
+        "prior shared per kind), plus alpha, medium index, noise and lens angle: models with up to ~30 parameters. One "
+        "parameter per distinct prior, unique names, a different value for every parameter lands at exactly the places of its "
+        "prior (list-ordered and name-keyed), theory/optics/noise/alpha likewise, initial guess; non-trivial = more than 10 parameters",
         tolerances={"rel": 1e-12}),
     Sub("ties_bounded_exhaustive", None, run_ties, 0, 0,
         "k = 2..5 spheres with equal-but-distinct radius priors: every subset of size >= 2 (with and without renaming) "
